@@ -219,7 +219,11 @@ def walk_stage(tools, work, ev, rep, tier):
             if "/" in p and p.rsplit("/", 1)[0] not in got[:k]:
                 return i, "entry %s is listed before its directory" % p
         open(d + "/l.txt", "wb").write(o)
-        rc, o2, e = sh([tools + "/gensquashfs", "-q", "-f", "-D", os.path.dirname(src), "-F", d + "/l.txt", d + "/b.sqfs"], timeout=60)
+        os.makedirs(d + "/un", exist_ok=True)
+        rc, o2, e = sh([tools + "/rdsquashfs", "-q", "-u", "/", "-p", d + "/un", d + "/a.sqfs"], timeout=60)       # the files the listing refers to
+        if rc:
+            return i, "rdsquashfs -u fails: %s" % e.decode(errors="replace")[-120:]
+        rc, o2, e = sh([tools + "/gensquashfs", "-q", "-f", "-D", d + "/un", "-F", d + "/l.txt", d + "/b.sqfs"], timeout=60)
         if rc:
             return i, "gensquashfs rejects the listing: %s" % e.decode(errors="replace")[-120:]
         if sorted(sqfsimg.load(d + "/b.sqfs").tree(with_content=False)) != sorted(sqfsimg.load(d + "/a.sqfs").tree(with_content=False)):
